@@ -225,6 +225,50 @@ R.add('L7.3c', l73c, lambda tier: [dict(mode=m, maxfrag=(2 if tier == 'quick' el
       desc='fragmented send (unretried / guaranteed): user callback exactly once after all fragments are resolved',
       expect=['the callback of a fragmented send fires exactly once'])
 
+
+# ------------------------------------------------------------------ L7.4 acked => accepted by the peer
+def l74(fragment):
+    """the receiver acknowledges a datagram only if it accepted the messages in it: a fresh genuine datagram
+    carrying a message that was never received before - at any distance from the newest message seen, inside
+    or far outside the 256-message window - is either not accepted (so never acked: the sender times out) or
+    its message reaches the application / the reassembly table"""
+    rx, ok, e_, seen, y, payload = proto.msg_gate_world(-32767, 32767, fragment)
+    if seen is not None:
+        assume(Not(seen))           # never received before (outside the window: by the choice of history)
+    got = len(rx.incoming_messages) + len(rx.received_fragments)
+    if ok is True:
+        # the datagram is in the receive window now, so every later header acks it (C08 L8.5)
+        check(rx.bitfield_pkt.contains(rx.bitfield_pkt.current_seqnum), 'the accepted datagram will be acked')
+        check(got == 1, 'an acknowledged datagram delivered its never-before-received message to the peer')
+        if got == 1 and not fragment:
+            check(rope.rope_eq(rx.incoming_messages[0][1], payload), 'the delivered message is the one sent')
+    else:
+        check(got == 0, 'a refused datagram delivers nothing')
+
+
+def replay_l74(cfg, m):
+    m = dict(m)
+    if m.get('e', 0) >= 0 and m.get('e', 0) <= 256:
+        # make sure the message itself is not a member of the window built through the API
+        k = 256 - m['e']
+        if m['e'] == 0:
+            return False, 'e == 0 is the newest message itself'
+        m['msg_bits'] = m['msg_bits'] & ~(1 << k)
+    r = proto.replay_msg_gate(m, cfg['fragment'])
+    if r is None:
+        return False, 'window state not reached through the API'
+    ok, got, before = r
+    return ok is True and got != 1 and not before, \
+        'msg_cur=%d e=%d: datagram accepted (and acked)=%s but the never-received message was delivered %d time(s)' % (
+            m['msg_cur'], m['e'], ok, got)
+
+
+R.add('L7.4', l74, [dict(fragment=False), dict(fragment=True)], replay=replay_l74,
+      desc='acked => accepted: a datagram the receiver accepts (hence acks) delivers its never-before-received message, '
+           'whatever the distance of its message seq from the newest one seen (-32767..32767)',
+      expect=['an acknowledged datagram delivered its never-before-received message to the peer'],
+      bounds='one receive step from an arbitrary 256-bit message window; offsets -32767..32767; payload <= 100 opaque bytes')
+
 import sys as _sys  # noqa: E402
 for _l in R.lemmas.values():
     if _l.replay is None:
